@@ -52,7 +52,7 @@ def diff(a, b, exact, rtol, atol=1e-9):
             return "shape %s vs %s" % (a["shape"], b["shape"])
         scale = max([abs(x) for x in a["data"] if x == x] + [1e-300])
         for idx, (x, y) in enumerate(zip(a["data"], b["data"])):
-            if x != x and y != y:
+            if (x != x and y != y) or x == y:
                 continue
             if (x != y) if exact else not (abs(x - y) <= atol + rtol * max(abs(x), abs(y), scale)):
                 return "entry %d: %r vs %r" % (idx, x, y)
